@@ -4,15 +4,19 @@ package main
 
 // C05, the spawner side of the status line: `[read/total]`.
 //
-//   srccount <n> <missing> <ahead> <readers>
+//   srccount <n> <missing> <ahead> <readers> [gz]
 //     The real OpenFilesToChan over n names (the first <missing> of them do not exist), fed through an unbuffered
 //     channel <ahead> names at a time with a short pause in between, so that `len(bufferedFilenames)` differs from
 //     iteration to iteration of the spawner's loop.  A sampler goroutine calls StatusString in a tight loop while
 //     the consumer drains the batch channel and checks on every sample that shows the prefix: total never
 //     decreases (mono), read <= total <= n (bounded).  final = the prefix after the channel was closed.
+//     With `gz` the files are opened with gunzip on: every second one IS gzip-compressed, the others are plain (the
+//     "Gunzip error … Reading as plain file" fallback of openFileToReader); the bookkeeping must not notice.
 //     Model: Model/C05Spawner.lean; Props status_read_le_total, status_total_monotone, status_total_complete.
 
 import (
+	"bytes"
+	"compress/gzip"
 	"fmt"
 	"os"
 	"path/filepath"
@@ -56,6 +60,7 @@ func c05SrcCount(f []string) string {
 	if readers < 1 {
 		readers = 1
 	}
+	gz := len(f) > 5 && f[5] == "gz"
 	dir, err := os.MkdirTemp(os.Getenv("VERIF_WORK"), "c05src")
 	if err != nil {
 		dir, err = os.MkdirTemp("", "c05src")
@@ -68,7 +73,15 @@ func c05SrcCount(f []string) string {
 	for i := 0; i < n; i++ {
 		p := filepath.Join(dir, fmt.Sprintf("f%03d", i))
 		if i >= missing {
-			os.WriteFile(p, []byte(strings.Repeat("line\n", 1+i%3)), 0o644)
+			body := []byte(strings.Repeat("line\n", 1+i%3))
+			if gz && i%2 == 0 {
+				var zb bytes.Buffer
+				zw := gzip.NewWriter(&zb)
+				zw.Write(body)
+				zw.Close()
+				body = zb.Bytes()
+			}
+			os.WriteFile(p, body, 0o644)
 		}
 		names = append(names, p)
 	}
@@ -87,7 +100,7 @@ func c05SrcCount(f []string) string {
 		}
 		close(ch)
 	}()
-	b := batchers.OpenFilesToChan(ch, false, readers, 10, 2)
+	b := batchers.OpenFilesToChan(ch, gz, readers, 10, 2)
 
 	stop := make(chan struct{})
 	samplerDone := make(chan struct{})
@@ -146,7 +159,7 @@ func c05SrcCountGen(r *Rand, tier string) []string {
 	if tier == "thorough" {
 		k = 20
 	}
-	out := []string{"srccount 6 1 2 3", "srccount 1 0 1 1", "srccount 2 2 1 1"}
+	out := []string{"srccount 6 1 2 3", "srccount 1 0 1 1", "srccount 2 2 1 1", "srccount 5 1 2 2 gz"}
 	for i := 0; i < k; i++ {
 		n := Pick(r, []int{0, 1, 2, 3, 7, 16, 40})
 		out = append(out, fmt.Sprintf("srccount %d %d %d %d", n, r.Intn(n+1)/2, Pick(r, []int{0, 1, 2, 5}), Pick(r, []int{1, 2, 3, 8})))
